@@ -78,6 +78,13 @@ func (c *Change) Replace(d data.Data, cl Changelog) (*ast.File, error) {
 	return c.replacer.Replace(d, cl)
 }
 
+// Apply is Replace that also reports whether the change applied to the file.
+// It does not when its pattern occurs only in places where the replacement
+// cannot stand; the file is then returned as it was.
+func (c *Change) Apply(d data.Data, cl Changelog) (_ *ast.File, applied bool, _ error) {
+	return c.replacer.replace(d, cl)
+}
+
 func connectDots(fset *token.FileSet, lhs, rhs []token.Pos, conns map[token.Pos]token.Pos) error {
 	cache := make(map[token.Pos]token.Position)
 	getPosition := func(pos token.Pos) token.Position {
